@@ -1,5 +1,7 @@
 import WV.Model.Basic
 import WV.Gen.Skel
+import WV.Gen.Flags
+import WV.Gen.T_SubChannel
 
 /-!
 C15 — Dilation back-pressure.
@@ -506,21 +508,40 @@ def dcpForwardsPause : Bool :=
 def dcpForwardsResume : Bool :=
   Gen.Skel.skeleton "DilatedConnectionProtocol.resumeProducing" == [("-", "transport.resumeProducing")]
 
-/-- calls received by the TCP transport of connection number `g` -/
+/-- exceptions that reach the caller of an Inbound-world operation -/
+inductive IExn where
+  | assertion        -- `assert scid not in self._open_subchannels` / `assert not self._protocol`
+  | key              -- `self._open_subchannels[scid]` in `subchannel_closed`
+  | noTransition     -- Automat: the SubChannel machine has no row for this input
+  | alreadyClosed    -- `AlreadyClosedError` (outputs `error_closed_close` / `error_closed_write`)
+  | normalOnHalf     -- `NormalCloseUsedOnHalfCloseable`
+  | halfOnFull       -- `HalfCloseUsedOnNonHalfCloseable`
+  deriving DecidableEq, Repr
+
+def IExn.name : IExn → String
+  | .assertion => "AssertionError" | .key => "KeyError" | .noTransition => "NoTransition"
+  | .alreadyClosed => "AlreadyClosedError" | .normalOnHalf => "NormalCloseUsedOnHalfCloseable"
+  | .halfOnFull => "HalfCloseUsedOnNonHalfCloseable"
+
+/-- calls received by the TCP transport of connection number `g`, and exceptions -/
 inductive IEv where
   | tPause (g : Nat)
   | tResume (g : Nat)
-  | exc (assertion : Bool)   -- an exception reached the caller: `AssertionError` (true) / `KeyError` (false)
+  | exc (e : IExn)
   deriving DecidableEq, Repr
 
 inductive IOp where
   | use                    -- `use_connection(c)` with a new connection object
   | stop                   -- `stop_using_connection()`
-  | pause (sc : Nat)       -- `subchannel_pauseProducing(sc)`
-  | resume (sc : Nat)      -- `subchannel_resumeProducing(sc)`
+  | pause (sc : Nat)       -- `SubChannel.pauseProducing()` → `Manager` → `Inbound.subchannel_pauseProducing(sc)`
+  | resume (sc : Nat)      -- `SubChannel.resumeProducing()` → … `subchannel_resumeProducing(sc)`
   | stopProducing (sc : Nat)
-  | opn (sc : Nat)         -- `subchannel_local_open(scid, sc)`
-  | close (sc : Nat)       -- `Manager.subchannel_closed(scid, sc)` → `Inbound.subchannel_closed(scid, sc)`
+  | opn (sc : Nat)         -- `subchannel_local_open(scid, sc)` + `sc._set_protocol(<plain IProtocol>)`
+  | opnHalf (sc : Nat)     -- the same with an `IHalfCloseableProtocol`
+  | close (sc : Nat)       -- `Manager.subchannel_closed(scid, sc)` → `Inbound.subchannel_closed(scid, sc)` called directly
+  | rclose (sc : Nat)      -- the peer's CLOSE: `Inbound.handle_close(scid)` → `sc.remote_close()`
+  | lose (sc : Nat)        -- the application calls `sc.loseConnection()`
+  | loseW (sc : Nat)       -- the application calls `sc.loseWriteConnection()`
   deriving DecidableEq, Repr
 
 structure Inb where
@@ -529,6 +550,7 @@ structure Inb where
   conn : Option Nat := none      -- `_connection` (the number of the connection object)
   gen : Nat := 0                 -- connections created so far
   log : List IEv := []           -- newest first
+  subs : List (Nat × Gen.SubChannel.State × Bool) := []   -- SubChannel objects: Automat state, "protocol is IHalfCloseableProtocol"
   deriving DecidableEq, Repr
 
 /-- `self._connection.pauseProducing()` on connection `g` -/
@@ -544,6 +566,49 @@ def Inb.discard (s : Inb) (sc : Nat) : Inb :=
     else { s with pausedSc := sDel sc s.pausedSc }
   | none => { s with pausedSc := sDel sc s.pausedSc }
 
+def Inb.raise (s : Inb) (e : IExn) : Inb := { s with log := .exc e :: s.log }
+
+/-- `Inbound.subchannel_closed(scid, sc)`:
+    `assert self._open_subchannels[scid] is sc` (KeyError when not open); `del self._open_subchannels[scid]`;
+    `self.subchannel_stopProducing(sc)`: a closed subchannel drops its pause, the connection is resumed if it was the last -/
+def Inb.closeSub (s : Inb) (sc : Nat) : Inb :=
+  if sc ∈ s.openSc then Inb.discard { s with openSc := sDel sc s.openSc } sc
+  else s.raise .key
+
+/-- a SubChannel object is created `unconnected`, without a protocol -/
+def Inb.scState (s : Inb) (sc : Nat) : Gen.SubChannel.State × Bool :=
+  match s.subs.lookup sc with
+  | some x => x
+  | none => (Gen.SubChannel.init, false)
+
+def Inb.setSc (s : Inb) (sc : Nat) (x : Gen.SubChannel.State × Bool) : Inb :=
+  { s with subs := (sc, x) :: s.subs.filter (fun e => e.1 != sc) }
+
+/-- the outputs of one SubChannel transition, in order; an exception ends them.  Only
+    `close_subchannel` (→ `Manager.subchannel_closed` → `Inbound.subchannel_closed`) and the two
+    `error_*` outputs matter here; `send_*` go to Outbound's queue, `signal_*` to the application. -/
+def runOuts (s : Inb) (sc : Nat) : List Gen.SubChannel.Output → Inb
+  | [] => s
+  | .close_subchannel :: r => if sc ∈ s.openSc then runOuts (s.closeSub sc) sc r else s.raise .key
+  | .error_closed_close :: _ => s.raise .alreadyClosed
+  | .error_closed_write :: _ => s.raise .alreadyClosed
+  | _ :: r => runOuts s sc r
+
+/-- one input of the SubChannel machine of `sc`, through the generated table (new state first, then outputs) -/
+def scInput (s : Inb) (sc : Nat) (inp : Gen.SubChannel.Input) : Inb :=
+  match Gen.SubChannel.table (s.scState sc).1 inp with
+  | none => s.raise .noTransition
+  | some (st', outs) => runOuts (s.setSc sc (st', (s.scState sc).2)) sc outs
+
+/-- `subchannel_local_open(scid, sc)` then `sc._set_protocol(p)` -/
+def openSub (s : Inb) (sc : Nat) (half : Bool) : Inb :=
+  if sc ∈ s.openSc then s.raise .assertion                        -- `assert scid not in self._open_subchannels`
+  else if (s.scState sc).1 != Gen.SubChannel.init then
+    Inb.raise { s with openSc := sAdd sc s.openSc } .assertion   -- `assert not self._protocol`
+  else
+    scInput (Inb.setSc { s with openSc := sAdd sc s.openSc } sc (Gen.SubChannel.init, half)) sc
+      (if half then .connect_protocol_half else .connect_protocol_full)
+
 def istep (s : Inb) : IOp → Inb
   | .use =>
     if !s.pausedSc.isEmpty then Inb.connPause { s with conn := some (s.gen + 1), gen := s.gen + 1 } (s.gen + 1)
@@ -555,22 +620,26 @@ def istep (s : Inb) : IOp → Inb
       if s.pausedSc.isEmpty then Inb.connPause { s with pausedSc := sAdd sc s.pausedSc } g
       else { s with pausedSc := sAdd sc s.pausedSc }
     | none => { s with pausedSc := sAdd sc s.pausedSc }
+  -- `SubChannel.resumeProducing/stopProducing` forward unconditionally, in every state of the subchannel
+  -- (`Gen.Flags.subchannel_resume_is_plain_forward`, pinned by `skeleton_agrees`)
   | .resume sc => s.discard sc
   | .stopProducing sc => s.discard sc
-  | .opn sc =>
-    -- `assert scid not in self._open_subchannels`
-    if sc ∈ s.openSc then { s with log := .exc true :: s.log } else { s with openSc := sAdd sc s.openSc }
-  | .close sc =>
-    -- `assert self._open_subchannels[scid] is sc` (KeyError when not open); `del self._open_subchannels[scid]`;
-    -- `self.subchannel_stopProducing(sc)`: a closed subchannel drops its pause, the connection is resumed if it was the last
-    if sc ∈ s.openSc then Inb.discard { s with openSc := sDel sc s.openSc } sc
-    else { s with log := .exc false :: s.log }
+  | .opn sc => openSub s sc false
+  | .opnHalf sc => openSub s sc true
+  | .close sc => s.closeSub sc
+  | .rclose sc =>
+    -- `handle_close`: `sc = self._open_subchannels.get(scid)`; missing → log.err and return
+    if sc ∈ s.openSc then scInput s sc .remote_close else s
+  | .lose sc =>
+    if (s.scState sc).2 then s.raise .normalOnHalf else scInput s sc .local_close
+  | .loseW sc =>
+    if (s.scState sc).2 then scInput s sc .local_close else s.raise .halfOnFull
 
 /-! ## driver (line protocol)
 
 ```
 o <op> [/ <op> <op> … [/ …]]      one top-level Outbound call; each `/`-segment is the script of one turn, in turn order
-i use | i stop | i p <sc> | i r <sc> | i s <sc> | i o <sc> | i c <sc>
+i use | i stop | i p <sc> | i r <sc> | i s <sc> | i o <sc> | i oh <sc> | i c <sc> | i rc <sc> | i l <sc> | i lw <sc>
 op ::= w0 | w1 | P | R | S | r:<sc>:<p>:<0|1> | u:<sc> | c:<sc> | U | D | pl:<p>
 ```
 answer to `o`: `<calls since the line started, oldest first> | <state>`;
@@ -614,10 +683,12 @@ def showOut (c : Cfg) : String :=
 def showIEv : IEv → String
   | .tPause g => s!"tp{g}"
   | .tResume g => s!"tr{g}"
-  | .exc a => if a then "!AssertionError" else "!KeyError"
+  | .exc e => "!" ++ e.name
 
 def showInb (s : Inb) : String :=
-  s!"paused={showList (sorted s.pausedSc)} open={showList (sorted s.openSc)} conn={match s.conn with | some g => toString g | none => "-"}"
+  let scs := sorted (s.subs.map (·.1))
+  let sub := ",".intercalate (scs.map fun n => s!"{n}:{Gen.SubChannel.State.name (s.scState n).1}")
+  s!"paused={showList (sorted s.pausedSc)} open={showList (sorted s.openSc)} conn={match s.conn with | some g => toString g | none => "-"} sub={sub}"
 
 structure DrvSt where
   c : Cfg := {}
@@ -630,7 +701,11 @@ def readIOp? : List String → Option IOp
   | ["r", sc] => sc.toNat?.map .resume
   | ["s", sc] => sc.toNat?.map .stopProducing
   | ["o", sc] => sc.toNat?.map .opn
+  | ["oh", sc] => sc.toNat?.map .opnHalf
   | ["c", sc] => sc.toNat?.map .close
+  | ["rc", sc] => sc.toNat?.map .rclose
+  | ["l", sc] => sc.toNat?.map .lose
+  | ["lw", sc] => sc.toNat?.map .loseW
   | _ => none
 
 def drvStep (s : DrvSt) (line : String) : DrvSt × String :=
